@@ -3,6 +3,7 @@ from world import amounts
 
 ID = "C15"
 LEAN_MODULES = ["QtyModel.Props.C15", "QtyModel.Props.C15Dec"]
+HARNESS_GROUPS = ('g_rate',)
 RATE_TYPES = ["Length", "Duration", "Mass", "DataVolume", "Temperature", "AmountT", "S:Su", "S:Sn", "S:Sa"]
 FILLS = ["n", "s", "z", "u", "e", "w"]
 ALIGNS = ["n", "l", "c", "r"]
